@@ -1,12 +1,194 @@
 /-
-C19 — property theorems.  (Helper lemmas live in `Lemmas.lean`.)
+C19 — property theorems.  (Helper lemmas live in `Lemmas.lean`, `Fifo.lean`, `Take.lean`.)
+
+Vocabulary: `run s ops` = final state and event trace of the operations `ops` (any interleaving
+of queueMsg / sendMsg / takeMsg / die / reset / clock ticks / MOTD end / PONG / echo-message
+(un)acknowledged / configuration changes — the filters are part of the configuration) from an
+arbitrary state `s`; `life c now ops` = the same from a freshly constructed `Irc`.
 -/
-import LimnoriaModel.C19.Lemmas
+import LimnoriaModel.C19.Take
 namespace C19
-open Py
+open Py List
 
 /-- Facts about the *extracted* tables (`_high`, `_low`, the rate-limited command) on which the
 priority and JOIN-rate theorems rest; re-checked against what `/repo/src/irclib.py` says now. -/
 theorem tables_ok : TablesOk Gen.highPriority Gen.lowPriority Gen.rateLimitedCommand := by decide
+
+/-! ## no loss, no duplication -/
+
+/-- **Conservation.**  Whatever the operations and the filters: the messages that were waiting
+plus those accepted since are exactly (as multisets) those handed to the driver, those a filter
+dropped, those lost to the echo-emulation assertion, those thrown away by `reset()` and those
+still waiting.  Nothing is duplicated, nothing vanishes otherwise. -/
+theorem conservation (s : Irc) (ops : List Op) :
+    (s.pending ++ accOf (run s ops).2).Perm
+      (tookOf (run s ops).2 ++ dropOf (run s ops).2 ++ lostOf (run s ops).2 ++
+        discOf (run s ops).2 ++ (run s ops).1.pending) := by
+  rw [perm_iff_count]
+  intro x
+  have h := run_conserves ops s x
+  have g := goneOf_count x (run s ops).2
+  simp only [count_append] at *
+  omega
+
+/-- the same for a whole life of an `Irc` object (nothing waits before it is constructed) -/
+theorem conservation_life (c : Cfg) (now : Nat) (ops : List Op) :
+    (accOf (life c now ops).2).Perm
+      (tookOf (life c now ops).2 ++ dropOf (life c now ops).2 ++ lostOf (life c now ops).2 ++
+        discOf (life c now ops).2 ++ (life c now ops).1.pending) := by
+  rw [perm_iff_count]
+  intro x
+  have h1 : Conserves (blank c now) (life c now ops) := by
+    unfold life init
+    dsimp only
+    have a : Conserves (blank c now) ((queueConnectMessages (blank c now)).1,
+        Ev.config c.throttle c.joinLimit :: (queueConnectMessages (blank c now)).2) := by
+      intro y
+      have := queueConnectMessages_conserves (blank c now) y
+      simpa [accOf, goneOf] using this
+    exact Conserves.trans a (run_conserves ops _)
+  have h := h1 x
+  have g := goneOf_count x (life c now ops).2
+  have hb : count x (blank c now).pending = 0 := by simp [blank, Irc.pending, Queue.all, Queue.empty]
+  simp only [count_append] at *
+  omega
+
+/-- **Refusal is explicit and has no effect**: `queueMsg` answers `False` exactly when the bot
+is quitting or an equal message is queued while duplicate refusal is on; the state is unchanged. -/
+theorem queueMsg_refused_iff (s : Irc) (m : Msg) :
+    (queueMsg s m).2 = [.refused false m] ↔
+      (s.zombie = true ∨ (s.queue.contains m = true ∧ s.cfg.dupRefuse = true)) := by
+  have key : (s.queue.enqueue s.cfg.dupRefuse m).2 = !(s.queue.contains m && s.cfg.dupRefuse) := by
+    unfold Queue.enqueue
+    split
+    · rename_i h; simp [h]
+    · rename_i h; simp only [Bool.not_eq_true] at h; rw [h]; split <;> rfl
+  unfold queueMsg
+  cases hz : s.zombie
+  · simp only [Bool.not_false, if_true]
+    split
+    · rename_i q' he
+      rw [he] at key
+      constructor
+      · intro h; simp at h
+      · intro h
+        rcases h with h | ⟨h1, h2⟩
+        · cases h
+        · rw [h1, h2] at key; cases key
+    · rename_i q' he
+      rw [he] at key
+      constructor
+      · intro _
+        right
+        simpa using key.symm
+      · intro _; rfl
+  · simp
+
+theorem queueMsg_refused_state (s : Irc) (m : Msg) (h : (queueMsg s m).2 = [.refused false m]) :
+    (queueMsg s m).1 = s := by
+  unfold queueMsg at h ⊢
+  split
+  · split
+    · rename_i h1 _ q' h2
+      simp only [h1, h2, if_true] at h
+      cases h
+    · rfl
+  · rfl
+
+/-- otherwise it answers `True` and the message is appended to the list of its class -/
+theorem queueMsg_accepted (s : Irc) (m : Msg)
+    (h : ¬ (s.zombie = true ∨ (s.queue.contains m = true ∧ s.cfg.dupRefuse = true))) :
+    (queueMsg s m).2 = [.accepted false m] ∧
+    (queueMsg s m).1.pending.Perm (s.pending ++ [m]) := by
+  have hne : (queueMsg s m).2 ≠ [.refused false m] := fun h' => h ((queueMsg_refused_iff s m).mp h')
+  unfold queueMsg at hne ⊢
+  cases hz : s.zombie
+  · simp only [hz, Bool.not_false, if_true] at hne ⊢
+    split
+    · rename_i q' he
+      refine ⟨rfl, ?_⟩
+      rw [perm_iff_count]; intro x
+      have := enqueue_true_count he x
+      simp only [Irc.pending, count_append, count_cons_one, count_nil] at *
+      omega
+    · rename_i q' he; simp [he] at hne
+  · exact absurd (Or.inl hz) h
+
+/-! ## priority and first-in-first-out -/
+
+/-- **Fast queue first, then the most urgent class, oldest first.**  In any reachable state
+(`FifoInv`), a message that `takeMsg` takes from the regular queue (to hand it to the driver, or
+to lose it to a filter) is the head of the most urgent non-empty class list; no queued message
+has a more urgent class; the throttle interval has passed; and every message of the fast queue
+was dealt with first (each was dropped by a filter in this very call). -/
+theorem priority (s : Irc) (h : Hist) (hi : FifoInv s h) (e : Ev) (m : Msg)
+    (he : e ∈ (takeMsg s).2) (hs : e.srcQ = some m) :
+    ((∃ r, s.queue.high = m :: r) ∨ (s.queue.high = [] ∧ ∃ r, s.queue.normal = m :: r) ∨
+      (s.queue.high = [] ∧ s.queue.normal = [] ∧ ∃ r, s.queue.low = m :: r)) ∧
+    (∀ x ∈ s.queue.all, (classOf m.cmd).rank ≤ (classOf x.cmd).rank) ∧
+    s.lastTake + s.cfg.throttle < s.now ∧
+    (∀ x ∈ s.fast, Ev.dropped true x s.now ∈ (takeMsg s).2) := by
+  obtain ⟨⟨q', hq⟩, ht, hf⟩ := takeAux_srcQ _ s e m he hs
+  exact ⟨dequeue_msg_head hq, dequeue_msg_best hq hi.cls, ht, hf⟩
+
+/-- a message taken from the fast queue is its head -/
+theorem fast_first (s : Irc) (m : Msg) (rest : List Msg) (hf : s.fast = m :: rest) :
+    ∃ e r, (takeMsg s).2 = e :: r ∧
+      ((∃ o, e = .took true m o s.now) ∨ (∃ o, e = .lost true m o s.now) ∨ e = .dropped true m s.now) := by
+  unfold takeMsg takeAux
+  simp only [hf]
+  split
+  · exact ⟨_, _, rfl, Or.inl ⟨_, rfl⟩⟩
+  · exact ⟨_, _, rfl, Or.inr (Or.inl ⟨_, rfl⟩)⟩
+  · exact ⟨_, _, rfl, Or.inr (Or.inr rfl)⟩
+
+/-- **First-in-first-out inside a class**, for a whole life: per class, the sequence of accepted
+messages (since the last `reset()`) is the sequence of those that left followed by those still
+waiting — exactly, in order, for the fast queue and the high and normal classes; for the low
+class as multisets, and in order once the rate-limited command (JOIN) is disregarded: a held-back
+JOIN only moves to the back, it is never dropped and nothing else is reordered. -/
+theorem fifo (c : Cfg) (now : Nat) (ops : List Op) :
+    FifoInv (life c now ops).1 (Hist.empty.pushAll (life c now ops).2) := by
+  unfold life init
+  dsimp only
+  have h0 : FifoInv (blank c now) Hist.empty := blank_fifo _ rfl rfl
+  have a : FifoStep (blank c now) ((queueConnectMessages (blank c now)).1,
+      Ev.config c.throttle c.joinLimit :: (queueConnectMessages (blank c now)).2) := by
+    intro h hi
+    exact queueConnectMessages_fifo (blank c now) h hi
+  exact FifoStep.trans a (run_fifo ops _) Hist.empty h0
+
+/-- the same from any state satisfying the invariant -/
+theorem fifo_run (s : Irc) (h : Hist) (hi : FifoInv s h) (ops : List Op) :
+    FifoInv (run s ops).1 (h.pushAll (run s ops).2) := run_fifo ops s h hi
+
+/-! ## a quitting bot drains its queues -/
+
+/-- **The driver is killed only with empty queues.**  Whatever the state and the operation: if
+the step calls `driver.die()`, then either it is `die()` itself on a bot that has not finished
+connecting (no end of MOTD yet — by design it closes at once), or both queues are empty at that
+point (after the repair of `takeMsg`: the zombie branch used to fire whenever no message was
+returned — throttle, held-back JOIN, filter returning None). -/
+theorem quit_drains (s : Irc) (op : Op) (h : Ev.driverDie ∈ (step s op).2) :
+    (op = .die ∧ s.afterConnect = false) ∨ (step s op).1.drained := by
+  cases op with
+  | queue m => exact absurd h (queueMsg_die s m)
+  | send m =>
+    have : Ev.driverDie ∉ (sendMsg s m).2 := by unfold sendMsg; split <;> simp
+    exact absurd h this
+  | take => exact Or.inr (takeAux_die _ s h)
+  | die =>
+    left
+    unfold step die at h
+    dsimp only at h
+    split at h
+    · rename_i hc; exact ⟨rfl, by simpa using hc⟩
+    · cases h
+  | reset => exact Or.inr (reset_die s h)
+  | tick dt => cases h
+  | connected => cases h
+  | pong => cases h
+  | capEcho b => cases h
+  | config c => simp [step] at h
 
 end C19
